@@ -328,7 +328,7 @@ def C43(ctx):
     return _finish(ctx, behs,
                    "S: TLC checks on all histories of <= 2/3 transactions of <= 3 instructions over an integer-id and a RUID resource "
                    "(3 ids each; mint, mint of a wrongly typed id, RUID mint, burn, burn in account, update data of a mutable and an "
-                   "immutable field, failing transactions) LiveSubsetEver, HeldIdsAreLive, MintedOnce (history counter), EverMonotone, "
+                   "immutable field of a 4-field data type in mixed order (a, c immutable; b, d mutable; distinct value per field), of an unknown field name, failing transactions) LiveSubsetEver, HeldIdsAreLive, MintedOnce (history counter), EverMonotone, "
                    "MintFresh, RevertExact (a failed mint does not consume the id), DataChangeRestricted, UpdateOnlyLive. G: %(n)d model "
                    "histories (%(txs)d transactions; thorough: all histories of 3 transactions of a tiny instance incl. burn-then-remint; seeded "
                    "histories of 4 transactions) replayed on the real ledger; after every transaction the data entry of every id of the "
@@ -511,8 +511,9 @@ PROPS = {
                      "all bounded histories incl. failed transactions that an id is minted at most once ever (also after burn; a failed "
                      "mint does not consume it), that minted ids have the resource's id type (a string id for an integer resource and an "
                      "explicit id for a RUID resource are rejected), and that data changes only through UpdateData of a live id and a "
-                     "mutable field. Histories are replayed on a real ledger (integer and RUID resources); data entries (live / locked "
-                     "tombstone / absent) are read back after every transaction.",
+                     "mutable field, changing exactly that field. Histories are replayed on a real ledger (integer and RUID resources) whose data type has four "
+                     "fields in mixed order (immutable, mutable, immutable, mutable) with a different value in each; EVERY field of every data entry "
+                     "(live / locked tombstone / absent) is read back after every transaction.",
                 note="Trusted: as C09; RUID ids are bound to the model's ordinals through the order of ids in the mint event."),
     "C04": dict(fn=C04, level="model_checking", design_ref="5/C04",
                 technique="TLA+ spec Ledger over histories: supply = sum of vaults as a state invariant (TLC) + histories replayed + full database snapshots validated by TraceLedgerSupply",
